@@ -2,6 +2,8 @@ import TlsProofs.RsaDecrypt
 import TlsProofs.RsaServer
 import TlsProofs.RsaGen
 import TlsModel.Gen.RsaDecrypt
+import TlsProofs.CryptomathGen
+import TlsModel.Gen.Cryptomath
 /-
   C11 — RSA key transport gives an attacker no padding oracle.
 
@@ -594,6 +596,129 @@ theorem gen_translation_complete :
   decide
 
 end Regenerated
+
+/-! ## cryptomath.py / compat.py as the source has them now
+
+  `PyE.numBits`, `numBytes`, `bytesToNumber`, `numberToByteArray` — what the regenerated decryption path
+  above calls — are not assumptions: translate/gen_cryptomath.py regenerates cryptomath.py and compat.py
+  (TlsModel/Gen/Cryptomath.lean; `int.bit_length`, `int.to_bytes`, `int.from_bytes`, `divmod` are the
+  runtime primitives) and the theorems below prove the regenerated functions equal to those definitions
+  for every argument.  What remains a parameter of the C11 theorems: `secureHash`, `secureHMAC`,
+  `getRandomBytes`, `_rawPrivateKeyOp` (pow). -/
+section Cryptomath
+open Tls.PyE Tls.Cryptomath
+
+theorem gen_numBits_eq (x : Int) : Gen.numBits x = .ok (PyE.numBits x) := by
+  simp only [Gen.numBits, Gen.bit_length, pure, bitLength_eq]; rfl
+
+theorem gen_numBytes_eq (x : Int) : Gen.numBytes x = .ok (PyE.numBytes x) := by
+  simp only [Gen.numBytes, Gen.byte_length, Gen.bit_length, bind, pure, bitLength_eq, ok_bind', fdiv7_eq]; rfl
+
+theorem gen_bytesToNumber_eq (b : Bytes) :
+    Gen.bytesToNumber b "big" = .ok (PyE.bytesToNumber b) ∧
+    Gen.bytesToNumber b "little" = .ok (PyE.bytesToNumber b.reverse) := by
+  constructor <;> rfl
+
+theorem gen_int_to_bytes_eq (x k : Int) (order : String) :
+    Gen.int_to_bytes x (some k) order = PyE.intToBytes x k order := by
+  simp [Gen.int_to_bytes, bind, pure, optGet, Except.bind, Except.pure]
+
+theorem gen_int_to_bytes_none (x : Int) (order : String) :
+    Gen.int_to_bytes x none order = PyE.intToBytes x (if x ≠ 0 then PyE.numBytes x else 1) order := by
+  have hbl : Gen.byte_length x = .ok (PyE.numBytes x) := gen_numBytes_eq x
+  by_cases h : x = 0 <;> simp [Gen.int_to_bytes, bind, pure, optGet, Except.bind, Except.pure, hbl, h]
+
+theorem gen_numberToByteArray_eq (x k : Int) :
+    Gen.numberToByteArray x (some k) "big" = PyE.numberToByteArray x k := by
+  unfold Gen.numberToByteArray
+  have hbl : Gen.byte_length x = .ok (PyE.numBytes x) := gen_numBytes_eq x
+  simp only [bind, pure, hbl, ok_bind', gen_int_to_bytes_eq]
+  have hs : ((some k).isSome = true) = True := by simp
+  have hg : optGet (some k) = (.ok k : PyE.M Int) := rfl
+  have hd : (decide True = true) = True := by simp
+  simp only [hs, hg, hd, if_true, ok_bind']
+  unfold PyE.numberToByteArray
+  have hL : PyE.numBytes x = ((Tls.RsaDec.numBytes x.natAbs : Nat) : Int) := rfl
+  generalize hLn : Tls.RsaDec.numBytes x.natAbs = L at hL
+  by_cases hx : x < 0
+  · -- OverflowError on either path
+    simp only [hx, if_true]
+    have hL1 : 0 ≤ PyE.numBytes x := by rw [hL]; omega
+    by_cases hk : k < PyE.numBytes x
+    · simp only [hk, decide_true, if_true]
+      rw [intToBytes_neg x _ "big" hx hL1 (Or.inl rfl)]; rfl
+    · simp only [hk, decide_false, Bool.false_eq_true, if_false]
+      rw [intToBytes_neg x k "big" hx (by omega) (Or.inl rfl)]
+  · simp only [hx, if_false]
+    obtain ⟨n, rfl⟩ : ∃ n : Nat, x = (n : Int) := ⟨x.toNat, by omega⟩
+    have hn : ((n : Int)).natAbs = n := Int.natAbs_natCast n
+    rw [hn] at hLn
+    have hlt := lt_pow_numBytes n
+    rw [hLn] at hlt
+    simp only [Int.toNat_natCast]
+    by_cases hk : k < PyE.numBytes (n : Int)
+    · simp only [hk, decide_true, if_true]
+      rw [hL, intToBytes_big n L hlt, ok_bind']
+      by_cases hk0 : k < 0
+      · -- nothing is left of the slice
+        have : k.toNat = 0 := by omega
+        rw [this]
+        show Except.pure (Py.slice _ (some ((L : Int) - k)) (some (L : Int))) = _
+        have e : (L : Int) - k = ((L + (-k).toNat : Nat) : Int) := by omega
+        rw [e, slice_empty _ _ _ (by omega)]
+        rfl
+      · obtain ⟨kn, rfl⟩ : ∃ kn : Nat, k = (kn : Int) := ⟨k.toNat, by omega⟩
+        rw [hL] at hk
+        have hkl : kn ≤ L := by omega
+        have e : (L : Int) - (kn : Int) = ((L - kn : Nat) : Int) := by omega
+        show Except.pure (Py.slice _ (some ((L : Int) - (kn : Int))) (some (L : Int))) = _
+        rw [e, Py.slice_from_to _ _ _ (by rw [beEncode_len]; omega) (by rw [beEncode_len] <;> exact Nat.le_refl _)]
+        have hd2 := beEncode_drop n (L - kn) kn
+        rw [show kn + (L - kn) = L by omega] at hd2
+        rw [hd2, Int.toNat_natCast]
+        have : L - (L - kn) = kn := by omega
+        rw [this, List.take_of_length_le (by rw [beEncode_len] <;> exact Nat.le_refl _)]
+        rfl
+    · simp only [hk, decide_false, Bool.false_eq_true, if_false]
+      rw [hL] at hk
+      obtain ⟨kn, rfl⟩ : ∃ kn : Nat, k = (kn : Int) := ⟨k.toNat, by omega⟩
+      have hkl : L ≤ kn := by omega
+      rw [intToBytes_big n kn (Nat.lt_of_lt_of_le hlt (Nat.pow_le_pow_right (by decide) hkl)), Int.toNat_natCast]
+
+theorem gen_numberToByteArray_none (n : Nat) :
+    Gen.numberToByteArray (n : Int) none "big" =
+      .ok (beEncode (if n ≠ 0 then Tls.RsaDec.numBytes n else 1) n) := by
+  unfold Gen.numberToByteArray
+  have hs : ((none : Option Int).isSome = true) = False := by simp
+  simp only [hs, if_false, bind, pure, gen_int_to_bytes_none]
+  by_cases h : n = 0
+  · subst h; rfl
+  · have h' : ((n : Int) ≠ 0) := by omega
+    have hnb : PyE.numBytes (n : Int) = ((Tls.RsaDec.numBytes n : Nat) : Int) := numBytes_nat n
+    simp only [h, h', ne_eq, not_false_eq_true, if_true, hnb]
+    exact intToBytes_big n _ (lt_pow_numBytes n)
+
+theorem gen_divceil_eq (a b : Nat) (hb : 0 < b) :
+    Gen.divceil (a : Int) (b : Int) = .ok ((a / b + (if a % b = 0 then 0 else 1) : Nat) : Int) := by
+  unfold Gen.divceil PyE.divmod PyE.intBool
+  have hb' : ¬ ((b : Int) = 0) := by omega
+  simp only [bind, pure, hb', if_false, ok_bind']
+  rw [Int.fdiv_eq_ediv_of_nonneg _ (by omega), Int.fmod_eq_emod_of_nonneg _ (by omega)]
+  show Except.ok _ = Except.ok _
+  congr 1
+  by_cases h : a % b = 0
+  · have : ((a : Int) % (b : Int)) = 0 := by omega
+    simp [h, this]
+  · have : ¬ ((a : Int) % (b : Int)) = 0 := by omega
+    simp [h, this]
+
+/-- the translator understood every statement of the cryptomath/compat functions -/
+theorem gen_cryptomath_translation_complete :
+    Cryptomath.Gen.translatorProblems = [] ∧ Cryptomath.Gen.translated.all (fun x => x.2) = true ∧
+      Cryptomath.Gen.translated.length = 8 := by
+  decide
+
+end Cryptomath
 
 end Tls.RsaDec
 
